@@ -1332,6 +1332,7 @@ class Checker:
         self.loops = []
         self.shift_rhs = []
         self.typarams = {}
+        self.abs_bind = {}       # abstracted parameters inherited from callees: name -> Binding
         self.range_loops = []
         self.self_mode = None      # None | "flat" | "whole"
         self.untyped_bins = []
@@ -1954,7 +1955,8 @@ class Checker:
             rec = self.w.translate(f)      # may raise Unsupported (propagates: caller untranslatable too)
             if rec.has_self:
                 raise Unsupported(f"method `{'::'.join(segs)}` called without a receiver")
-            if len(args) != len(rec.params):
+            self.inherit_abstract(rec)
+            if len(args) != len(rec.params) - len(rec.abstract_names):
                 raise Unsupported(f"arity mismatch calling `{n}`")
             for a, pb in zip(args, rec.params):
                 unify(self.infer(a), pb.ty, f"in argument of `{n}`")
@@ -1989,13 +1991,23 @@ class Checker:
                 return prune(args[0].ty)
         raise Unsupported(f"call to `{'::'.join(segs)}`, which is not a translated function")
 
+    def inherit_abstract(self, rec):
+        """a callee with abstracted parameters: the caller gets (and passes on) parameters of the same names"""
+        for pb in rec.params[len(rec.params) - len(rec.abstract_names):]:
+            if pb.name not in self.abs_bind:
+                b = Binding(pb.name, pb.ty, False, "param")
+                self.abs_bind[pb.name] = b
+            else:
+                unify(self.abs_bind[pb.name].ty, pb.ty, f"abstracted parameter `{pb.name}`")
+
     def call_method(self, e, f, recv_node, recv_ty, is_self):
         """call of the whitelisted method `f` on a receiver"""
         n = e.name
         rec = self.w.translate(f)
         if rec.self_mode is None:
             raise Unsupported(f"`.{n}()` but `{n}` takes no self")
-        if len(e.args) != len(rec.params):
+        self.inherit_abstract(rec)
+        if len(e.args) != len(rec.params) - len(rec.abstract_names):
             raise Unsupported(f"arity mismatch calling `{n}`")
         for a, pb in zip(e.args, rec.params):
             unify(self.infer(a), pb.ty, f"in argument of `{n}`")
@@ -2607,6 +2619,7 @@ class Gen:
             parts.append(self.chk.env_used[er[2]].lean)
         parts += selfargs
         parts += [P(a) for a in args]
+        parts += [self.chk.abs_bind[n].lean for n in rec.abstract_names]
         return " ".join(parts)
 
     def okapp(self, rec, selfargs, args):
@@ -2615,6 +2628,7 @@ class Gen:
             parts.append(self.chk.env_used[er[2]].lean)
         parts += selfargs
         parts += [P(a) for a in args]
+        parts += [self.chk.abs_bind[n].lean for n in rec.abstract_names]
         return " ".join(parts)
 
     def E(self, e):
@@ -3668,6 +3682,9 @@ WHITELIST = [
           abstract=[("self.inputs.len()", "inputs_len", "usize"), ("self.outputs.len()", "outputs_len", "usize")]),
     Entry(TXS, "TransactionBody", "verify_weight", "TransactionBody_verify_weight", "FnsTx",
           abstract=[("self.weight()", "weight", "u64")]),
+    Entry(TXS, "Transaction", "weight", "Transaction_weight", "FnsTx"),
+    Entry(TXS, "Transaction", "fee_rate", "Transaction_fee_rate", "FnsTx"),
+    Entry(TXS, "Transaction", "accept_fee", "Transaction_accept_fee", "FnsTx"),
     Entry(TXS, "Transaction", "fee", "Transaction_fee", "FnsTx"),
     Entry(TXS, "Transaction", "shifted_fee", "Transaction_shifted_fee", "FnsTx"),
     Entry(LIBTX, None, "tx_fee", "tx_fee", "FnsTx"),
@@ -4037,6 +4054,7 @@ class World:
         ast = parse_fn(item, self.macros(entry.file))
         for pname, pty, text in extra:
             ast.params.append(("param", pname, False, ("name", [pty], [])))
+        own_abstract = [pname for pname, _, _ in extra]
         chk = Checker(self, entry.file, entry.impl)
         chk.typarams = ast.typarams
         rec = FnRec()
@@ -4059,9 +4077,19 @@ class World:
                 b = chk.declare(name, chk.resolve_type(ty), mut, "param")
                 b.byref = ty[0] == "ref"
                 rec.params.append(b)
+        rec.abstract_names = list(own_abstract)    # provisional (recursion is refused anyway)
         bt = chk.infer(ast.body)
         if ast.body.tail is not None:
             unify(bt, chk.ret, "between body and declared return type")
+        # abstracted parameters inherited from callees become trailing parameters of this function too
+        for pname, b in chk.abs_bind.items():
+            own = [pb for pb in rec.params if pb.name == pname]
+            if own:
+                chk.abs_bind[pname] = own[0]
+            else:
+                chk.bindings.append(b)
+                rec.params.append(b)
+                rec.abstract_names.append(pname)
         chk.finish()
         if contains_tvar(rec.ret):
             raise Unsupported("return type not determined")
